@@ -16,6 +16,7 @@ Effect and ownership discipline, decided per construct:
 Under CPython's atomic dict operations W+E+M+R make every public call a function of its
 arguments and the date, whatever happened before and whatever other threads do."""
 import ast
+import re
 import os
 
 from ..common import Report, REPO, AnalysisError, src, rel
@@ -375,7 +376,10 @@ def check_shared_exception(rep, unit):
     inst = {}
     for st in unit.tree.body:
         if isinstance(st, ast.Assign) and isinstance(st.value, ast.Call) and len(st.targets) == 1 and isinstance(st.targets[0], ast.Name):
-            inst[st.targets[0].id] = st
+            # a call of an exception class (by the library's and Python's naming), not of a class factory
+            callee = src(st.value.func).split('.')[-1]
+            if re.search(r'(Error|Exception|Warning|^Invalid\w*)$', callee):
+                inst[st.targets[0].id] = st
     n = 0
     for qual, fn, _cls in unit.funcs:
         loc, _g = local_names(fn)
